@@ -1142,6 +1142,13 @@ class PyCdlib:
                         # record in the parent_links list for later linking.
                         parent_links.append(new_record)
                     if not dots and not rr_cl:
+                        # A directory stored at the extent of one of its own
+                        # ancestors would be walked forever.
+                        ancestor = dir_record
+                        while ancestor is not None:
+                            if ancestor.extent_location() == new_extent_loc:
+                                raise pycdlibexception.PyCdlibInvalidISO('Directory loop detected on the ISO')
+                            ancestor = ancestor.parent
                         dirs.append(new_record)
                         new_record.set_ptr(extent_to_ptr[new_extent_loc])
 
